@@ -75,6 +75,39 @@ pub mod proofs {
         assert!(det.verif_last_env()[0].to_bits() == e2.to_bits());
     }
 
+    /// the gain is chosen PER CHANNEL: 2-channel frames, second step from every state reachable by one dyadic input frame (k/4, |k| <= 4);
+    /// the update rule is checked bit-precisely on both channels.  Attack and release times are concrete (0 / 7 frames and
+    /// 3 / 0 frames): the gains are whatever calc_gain produced for them (read through the hook; one of them exactly 0),
+    /// the selection logic does not depend on their values (arbitrary-state mono rule: c19_t_one_pole_update)
+    fn per_channel(fa: f32, fr: f32, exact: bool) {
+        let mut det: Detector<[f32; 2], _> = Detector::peak(fa, fr);
+        let (ga, gr) = det.verif_gains();
+        assert!(ga != gr);
+        let x1 = [dyadic(4, 4), dyadic(4, 4)];
+        let e1 = det.next(x1);
+        let l = det.verif_last_env();
+        assert!(l[0].to_bits() == e1[0].to_bits() && l[1].to_bits() == e1[1].to_bits());
+        let x2 = [dyadic(4, 4), dyadic(4, 4)];
+        let e2 = det.next(x2);
+        let mut c = 0;
+        while c < 2 {
+            let d = x2[c].abs();
+            let g = if l[c] < d { ga } else { gr };
+            if exact || g == 0.0 {
+                assert!(e2[c].to_bits() == (d + (l[c] - d) * g).to_bits(), "P: per-channel one-pole update with per-channel attack/release choice");
+            } else {
+                // non-dyadic state times a non-dyadic gain: the duplicate product does not finish in CBMC; check that the
+                // non-zero gain was used (the envelope did not jump to the detected value) and no overshoot
+                assert!(if l[c] < d { e2[c] >= l[c] && e2[c] < d } else { e2[c] <= l[c] && (e2[c] > d || l[c] == d) }, "P: per-channel gain choice (between-ness, non-zero gain used)");
+            }
+            c += 1;
+        }
+        kani::cover!(l[0] < x2[0].abs() && l[1] > x2[1].abs(), "one channel rising while the other falls");
+        kani::cover!(l[0] > x2[0].abs() && l[1] < x2[1].abs(), "one channel falling while the other rises");
+    }
+    #[kani::proof] #[kani::unwind(3)] pub fn c19_per_channel_gain_attack0() { per_channel(0.0, 7.0, true) }
+    #[kani::proof] #[kani::unwind(3)] pub fn c19_per_channel_gain_release0() { per_channel(3.0, 0.0, false) }
+
     /// no overshoot: for dyadic previous envelope and detected value (exact difference) the new envelope lies
     /// between them, and equals the detected value when the gain is 0
     #[kani::proof]
